@@ -702,10 +702,34 @@ def is_pure_value_accessor(dm):
     return bool(re.search(r"\) const( &)?$", dm))
 
 
+def split_top(text):
+    """split a parameter list at top-level commas"""
+    out, depth, cur = [], 0, ""
+    for ch in text:
+        if ch in "<([":
+            depth += 1
+        elif ch in ">)]":
+            depth -= 1
+        if ch == "," and depth == 0:
+            out.append(cur)
+            cur = ""
+        else:
+            cur += ch
+    if cur.strip():
+        out.append(cur)
+    return out
+
+
 def non_const_on_tracked(dm, args):
     """an opaque non-const member call whose object lives in a tracked region may modify it"""
     if re.search(r"\) const( &| &&)?$", dm):
         return False
+    # a free function (operator==(layout_t const&, layout_t const&), ...) all of whose reference / pointer parameters are to const cannot modify them
+    m = re.match(r"^(?:[\w:<>,\s\*&]*?\s)?(operator\S*|[\w]+)\((.*)\)$", short(dm))
+    if m and "::" not in m.group(1):
+        params = [p_.strip() for p_ in split_top(m.group(2))] if m.group(2).strip() else []
+        if params and all(("&" not in p_ and "*" not in p_) or "const" in p_ for p_ in params):
+            return False
     return bool(args) and is_ptr(args[0]) and tracked_region(args[0][1])
 
 
